@@ -214,6 +214,33 @@ def _nonzero(eng, args, kwargs):
     return npmodels._np_nonzero(eng, args, kwargs)
 
 
+# ------------------------------------------------------------------ setdiff1d of concrete integer arrays
+def _setdiff1d(eng, args, kwargs):
+    a, b = args[0], args[1]
+    if all(isinstance(x, NArr) and x.ndim == 1 and all(isinstance(i, int) and not isinstance(i, bool) for i in x.items) for x in (a, b)):
+        used(eng, "np.setdiff1d on concrete integer arrays: evaluated by numpy itself")
+        kw = {k: v for k, v in kwargs.items()}
+        if len(args) > 2:
+            kw["assume_unique"] = args[2]
+        r = np.setdiff1d(np.array(a.items, dtype=np.int64), np.array(b.items, dtype=np.int64), **kw)
+        return NArr((len(r),), [int(i) for i in r], "int")
+    m = npmodels.lookup_model(np.setdiff1d)
+    if m is None:
+        raise Unsupported("np.setdiff1d on symbolic arrays")
+    return m(eng, args, kwargs)
+
+
+# ------------------------------------------------------------------ degrees
+def _degrees(eng, args, kwargs):
+    used(eng, "np.degrees(x) = x * 180 / pi (pi: the engine's abstract constant)")
+    pi = eng.pi_const()
+    f = lambda x: eng.binop(ast.Div(), eng.binop(ast.Mult(), x, 180), pi)
+    v = args[0]
+    if isinstance(v, NArr):
+        return narr.emap(eng, f, v, kind="real")
+    return f(v)
+
+
 # ------------------------------------------------------------------ getattr / callable on interpreted objects
 def _getattr(eng, args, kwargs):
     from .values import Obj, Opaque
@@ -259,5 +286,7 @@ def install():
     models.EXTRA_MODELS[np.zeros] = _zeros
     models.EXTRA_MODELS[np.concatenate] = _concatenate
     models.EXTRA_MODELS[np.nonzero] = _nonzero
+    models.EXTRA_MODELS[np.degrees] = _degrees
+    models.EXTRA_MODELS[np.setdiff1d] = _setdiff1d
     models.EXTRA_MODELS[getattr] = _getattr
     models.EXTRA_MODELS[callable] = _callable
